@@ -1433,6 +1433,10 @@ MUTANTS = [
     Mutant("disk-evict-at-most-one", F, "            for _ in range(len(files) - self.max_size):\n                oldest_file = min(files, key=lambda f: f.stat().st_ctime_ns)\n                oldest_file.unlink()\n                files.remove(oldest_file)\n",
            "            if len(files) > self.max_size:\n                oldest_file = min(files, key=lambda f: f.stat().st_ctime_ns)\n                oldest_file.unlink()\n", ("C14.7-disk-bound",), why="seeded C14/3"),
     # behaviour-preserving twins
+    Mutant("lru-get-refresh-only-when-full", F, "            # Move key to back of queue\n            self._cache_queue.remove(key)\n            self._cache_queue.append(key)\n", "            if len(self._cache_queue) >= self.max_size:\n                self._cache_queue.remove(key)\n                self._cache_queue.append(key)\n", ("C14.3-policy",), why="round-8 seed C14/22"),
+    Mutant("hybrid-ctor-copy-paste", F, "        self.duration_weight: float = duration_weight\n", "        self.duration_weight: float = access_weight\n", ("C14.3-policy",), why="round-8 seed C14/23"),
+    Mutant("twin-lru-get-field-aliases", F, "        with self._cache_lock:\n            if key not in self._cache_dict:\n                return None\n            value = self._cache_dict[key]\n            # Move key to back of queue\n            self._cache_queue.remove(key)\n            self._cache_queue.append(key)\n",
+           "        table, recency = self._cache_dict, self._cache_queue\n        with self._cache_lock:\n            if key not in table:\n                return None\n            value = table[key]\n            recency.remove(key)\n            recency.append(key)\n", twin=True, why="round-10 refactoring C14/26"),
     Mutant("twin-lru-put-local-name", F, "                key_to_evict = self._cache_queue.pop(0)\n                self._cache_dict.pop(key_to_evict)\n",
            "                victim = self._cache_queue.pop(0)\n                self._cache_dict.pop(victim)\n", twin=True),
     Mutant("twin-lru-put-del", F, "                self._cache_dict.pop(key_to_evict)\n", "                del self._cache_dict[key_to_evict]\n", twin=True),
